@@ -929,6 +929,9 @@ package hashgraph
 //@   loop 1 invariant[memo] h.MemoOK()
 //@   callback commitCallback modifies any Block.Body, anymap map[string]string, anymap map[string]BlockSignature, G_blocks(h.Store), G_bodies(h.Store), G_lastBlock(h.Store), G_pset(h.Store), G_psetOK(h.Store), G_psetFloor(h.Store), G_rep(h.Store), G_fault(h.Store), h.AnchorBlock, anyptr int
 //@   call NewBlockFromFrame assert[index]   __arg(0) == G_lastBlock(h.Store) + 1
+//@   call commitCallback capture[committed-round] r.Index
+//@   ensures[committed-are-processed] __called("commitCallback") ==> (exists k int :: 0 <= k && k < len(processedRounds) && processedRounds[k] == __cap[int]("committed-round"))
+//@   loop 1 invariant[committed] __called("commitCallback") ==> (exists k int :: 0 <= k && k < len(processedRounds) && processedRounds[k] == __cap[int]("committed-round"))
 //@   call GetFrame          assert[decided] r.Decided && __arg(0) == r.Index
 //@   ensures[processed-prefix] len(processedRounds) <= old(len(h.PendingRounds.sortedItems)) && (forall k int :: 0 <= k && k < len(processedRounds) ==> processedRounds[k] == old(h.PendingRounds.sortedItems)[k].Index && old(h.PendingRounds.sortedItems)[k].Decided)
 //@   ensures[stop-at-undecided] ret0 == nil && len(processedRounds) < old(len(h.PendingRounds.sortedItems)) ==> !old(h.PendingRounds.sortedItems)[len(processedRounds)].Decided
